@@ -64,6 +64,14 @@ REPRS = {
     "C_u8": (["#[repr(C, u8)]"], "u8"),
     "u8_then_C": (["#[repr(u8)]", "#[repr(C)]"], "u8"),
     "C_then_i16": (["#[repr(C)]", "#[repr(i16)]"], "i16"),
+    # the integer hint may sit in any of several `#[repr]` attributes, before or after hints that are not integers
+    "u8_then_align": (["#[repr(u8)]", "#[repr(align(4))]"], "u8"),
+    "align_then_i16": (["#[repr(align(2))]", "#[repr(i16)]"], "i16"),
+    "i32_align_one_list": (["#[repr(i32, align(8))]"], "i32"),
+    "align_u16_one_list": (["#[repr(align(2), u16)]"], "u16"),
+    "C_then_i8_then_align": (["#[repr(C)]", "#[repr(i8)]", "#[repr(align(2))]"], "i8"),
+    "align_then_u64_then_C": (["#[repr(align(16))]", "#[repr(u64)]", "#[repr(C)]"], "u64"),
+    "u8_doc_between": (["#[repr(u8)]", "#[doc = \"x\"]", "#[repr(align(2))]"], "u8"),
 }
 for _t in BITS:
     REPRS[_t] = (["#[repr(%s)]" % _t], _t)
